@@ -74,6 +74,23 @@ func main() {
 			usage()
 		}
 		os.Exit(replayMain(os.Args[2]))
+	case "bases":
+		for _, b := range []string{"E", "CH", "CC", "SP", "ML", "HO", "LCS", "LCM", "FL"} {
+			base, err := explore.GetBase(b, cfgByName("BIGC"), 0)
+			if err != nil {
+				fmt.Println(b, "ERROR", err)
+				continue
+			}
+			fmt.Println(b, base.Layout)
+		}
+		for _, b := range []string{"S2", "S3", "S4"} {
+			base, err := explore.GetBase(b, cfgByName("ROLL"), 0)
+			if err != nil {
+				fmt.Println(b, "ERROR", err)
+				continue
+			}
+			fmt.Println(b, base.Layout)
+		}
 	case "list":
 		for _, p := range explore.Props() {
 			fmt.Println(p)
